@@ -376,7 +376,8 @@ pub fn run_c20(tier: Tier) -> i32 {
     run_exps(&mut run, step_c20_any, exps, |_| {});
     // (b) configuration bounds: at 6 decimals, and at 9 decimals with the same boundary values in raw units
     let mut exps = vec![];
-    for dec in [6u8, 9] {
+    // instantiate-time settings that no update can change (the vAMM's funding period) are a dimension of the deployment
+    for (dec, funding_period) in [(6u8, 3600u64), (9, 3600), (6, 86_400), (6, 30 * 86_400)] {
         let d = 10u128.pow(dec as u32);
         let vals = [0u128, 1, d / 2, d - 1, d, d + 1];
         let mut alpha = vec![];
@@ -420,15 +421,21 @@ pub fn run_c20(tier: Tier) -> i32 {
             }
             alpha.dedup();
         }
-        for tw in [59u64, 60, 3600, 604_800, 604_801] {
+        for x in [10 * d, u128::MAX] {
+            alpha.push(Act::EngConfig { by: "owner".into(), imr: None, mmr: None, plr: Some(x), lf: None });
+            alpha.push(Act::EngConfig { by: "owner".into(), imr: None, mmr: None, plr: None, lf: Some(x) });
+            alpha.push(Act::VammConfig { by: "owner".into(), v: 0, toll: Some(x), spread: None, fluct: None, twap: None });
+            alpha.push(Act::VammConfig { by: "owner".into(), v: 0, toll: None, spread: None, fluct: Some(x), twap: None });
+        }
+        for tw in [0u64, 59, 60, 3600, 604_800, 604_801, 14 * 86_400, 30 * 86_400, u64::MAX] {
             alpha.push(Act::VammConfig { by: "owner".into(), v: 0, toll: None, spread: None, fluct: None, twap: Some(tw) });
         }
         for v in 0..3 {
             alpha.push(Act::AddVamm { by: "owner".into(), v });
             alpha.push(Act::RemoveVamm { by: "owner".into(), v });
         }
-        let c = Cfg { n_vamms: 1, extra_unregistered: true, extra_7dec: true, dec, ..Cfg::default() };
-        let mut e = Exp::new("config bounds", c, alpha, vec![vec![]], tier.pick(2, 3));
+        let c = Cfg { n_vamms: 1, extra_unregistered: true, extra_7dec: true, dec, funding_period, ..Cfg::default() };
+        let mut e = Exp::new("config bounds", c, alpha, vec![vec![]], if funding_period == 3600 { tier.pick(2, 3) } else { 2 });
         e.raw = true;
         exps.push(e);
     }
